@@ -253,3 +253,26 @@ func (*queuedSettingsAckFrame) send(dest *http2.Framer) error {
 func (*queuedSettingsAckFrame) String() string {
 	return "settings ack"
 }
+
+// queuedFlushMarker is not a frame. The writer closes done when it reaches the marker: everything
+// that was queued for the destination before it has been written by then (or, after a write
+// error, discarded).
+type queuedFlushMarker struct {
+	done chan struct{}
+}
+
+func (*queuedFlushMarker) StreamID() uint32 {
+	return 0
+}
+
+func (*queuedFlushMarker) flowControlSize() int {
+	return 0
+}
+
+func (*queuedFlushMarker) send(*http2.Framer) error {
+	return nil
+}
+
+func (*queuedFlushMarker) String() string {
+	return "flush marker"
+}
